@@ -588,3 +588,57 @@ fn c09_header_v2() {
     }
     core::mem::forget(r);
 }
+
+// @harness c09_format_image
+// @props C09 C20 C03
+// @tier thorough
+// @cost 600
+// @timeout 3000
+// @cbmc --max-field-sensitivity-array-size 4096
+// @desc the whole formatter Qcow2Header::format_qcow2 on a 2 KiB buffer with arbitrary previous content (512-byte clusters, 1 MiB + 512 B virtual disk, every refcount width): the bytes it produces are a valid image for an independent reader written from the spec: header fields, refcount table entry 0 -> the refcount block, every other refcount-table entry 0, refcount exactly 1 on the header, refcount-table, refcount-block and L1 clusters and 0 on every other cluster, first L1 block zero
+// @bounds cluster_bits 9, block size 512, virtual size 0x100200 (concrete size class); refcount_order 0..=6 symbolic; buffer pre-filled with arbitrary bytes
+// @funcs Qcow2Header::format_qcow2 Qcow2Header::calculate_meta_params RefBlock::increment RefTable::set Qcow2RawHeader::serialize_vec
+// @stub alloc::fmt::format -> String::new()
+#[kani::proof]
+#[kani::unwind(10)]
+#[kani::stub(alloc::fmt::format, fmt_stub)]
+fn c09_format_image() {
+    let order: u8 = kani::any();
+    kani::assume(order <= 6);
+    let fill: u8 = kani::any();
+    let mut buf = [fill; 2048];
+    let size: u64 = 0x10_0200;
+    let r = Qcow2Header::format_qcow2(&mut buf, size, 9, order, 512);
+    assert!(r.is_ok());
+    // independent reader
+    let be32 = |b: &[u8; 2048], at: usize| u32::from_be_bytes([b[at], b[at + 1], b[at + 2], b[at + 3]]);
+    let be64 = |b: &[u8; 2048], at: usize| ((be32(b, at) as u64) << 32) | be32(b, at + 4) as u64;
+    assert!(be32(&buf, 0) == 0x514649fb && be32(&buf, 4) == 3);
+    assert!(be64(&buf, 8) == 0 && be32(&buf, 20) == 9 && be64(&buf, 24) == size);
+    assert!(be32(&buf, 32) == 0);
+    // l1: ceil(size / (64 * 512)) = 33 entries, behind refcount table (cluster 1) and refcount block (cluster 2)
+    assert!(be32(&buf, 36) == 33 && be64(&buf, 40) == 3 * 512);
+    assert!(be64(&buf, 48) == 512 && be32(&buf, 56) == 1);
+    assert!(be64(&buf, 72) == 0 && be32(&buf, 96) == order as u32 && be32(&buf, 100) == 112);
+    // refcount table: entry 0 -> refcount block at cluster 2, the rest empty
+    assert!(be64(&buf, 512) == 1024);
+    let e: usize = kani::any();
+    kani::assume(e >= 1 && e < 64);
+    assert!(be64(&buf, 512 + 8 * e) == 0);
+    // refcount block: clusters 0..=3 (header, reftable, refblock, L1) in use exactly once
+    let mut rb = [0u8; 64];
+    rb.copy_from_slice(&buf[1024..1088]);
+    let c: usize = kani::any();
+    kani::assume(c < 5);
+    assert!(spec::rc_get(&rb, order as u32, c) == if c < 4 { 1 } else { 0 });
+    let z: usize = kani::any();
+    kani::assume(z >= 40 && z < 512);
+    assert!(buf[1024 + z] == 0);
+    // first L1 block zeroed
+    let l: usize = kani::any();
+    kani::assume(l < 512);
+    assert!(buf[1536 + l] == 0);
+    kani::cover!(order == 0);
+    kani::cover!(order == 6);
+    core::mem::forget(r);
+}
